@@ -416,7 +416,12 @@ def run(ctx):
     impl, model = impl_bin(), vlib.model_bin("stop")
     cases = gen_cases(ctx)
     lines = [t for t, _ in cases]
-    rm = vlib.run_lines([model], lines, min_shard=40)
+    # 6..8 calls returning in one step: the driver's closure exceeds its state cap, do not even try
+    small = [i for i, l in enumerate(lines) if not ("A" in l.split() and len([o for o in l.split() if o[0] == "a"]) >= 6)]
+    rm_small = vlib.run_lines([model], [lines[i] for i in small], min_shard=40)
+    rm = ["TOOBIG"] * len(lines)
+    for i, r in zip(small, rm_small):
+        rm[i] = r
     ri = vlib.run_lines([impl], lines, min_shard=4, timeout=1200)
     for (script, tag), a, b in zip(cases, ri, rm):
         ctx.count(tag)
